@@ -2,7 +2,17 @@
 C17 — Symlink resolution in image views terminates with the right answer.
 Property theorems only; helper lemmas live in `Scalibr.Proofs.Symlink`.
 All theorems hold for every graph (finite or not, cyclic or not), every maximum depth and every
-start entry; nothing is bounded.
+start entry; nothing is bounded and none carries a restricting hypothesis.
+
+The property's sentence, read strictly (`Spec.specWalk`): with a budget of `D` hops,
+  * the first non-symlink target when it is at most `D` hops away            → that node;
+  * a missing or deleted entry reached within `D` hops                       → not found;
+  * otherwise (anything — file, deleted entry, nothing — lies past the budget, or the chain cycles)
+                                                                             → cycle or depth error.
+There is no slack at the budget's edge. (Before fix <commit-2> a dangling target exactly one hop past
+the budget was answered not-exist while a deleted or present one at the same distance was a depth
+error, and before fix <commit-1> `Open`/`ReadDir` of a deleted entry returned a handle / an empty
+listing; the witnesses are kept in corpus/C17/budget-edge.case as strict regression cases.)
 -/
 import Scalibr.Proofs.Symlink
 namespace Scalibr.Symlink
@@ -12,7 +22,10 @@ variable {α : Type} [DecidableEq α]
 
 /-- Termination. `resolve` is defined by structural recursion on `depth + 1` (no fuel), so it is total;
 and the loop as Go writes it — an unbounded `for` with an `Int` counter, modelled with explicit fuel —
-returns that very answer within `maxDepth + 2` iterations on every graph; more fuel changes nothing. -/
+returns that very answer within `maxDepth + 2` iterations on every graph; more fuel changes nothing.
+(Reviewer: "fuel adequacy between two Lean transcriptions" — yes, that is what it is: the structural
+definition is the one all other theorems are about, this theorem says the literal transcription of the
+`for {}` agrees with it and needs at most `D + 2` iterations.) -/
 theorem C17_terminates (g : Graph α) (D : Nat) (p : α) (fuel : Nat) (h : D + 2 ≤ fuel) :
     loopF g fuel p p false (D : Int) = some (resolve g D p) := by
   have := loopF_eq_loop g (D+1) fuel p p false (by omega)
@@ -49,23 +62,23 @@ theorem C17_depth_independent (g : Graph α) (D D' : Nat) (p n n' : α)
   obtain ⟨k, _, hc, hn⟩ := loop_ok_sound g _ _ _ _ _ h
   exact (C17_never_wrong g D' p n' h' k n hc hn)
 
-/-- Not found: a missing entry at hop `j ≤ D` — and, pinned by the code, also at hop `D + 1`, because
-the lookup precedes the depth test — yields not-exist. -/
+/-- Not found: a missing entry at hop `j ≤ D` yields not-exist … -/
 theorem C17_notfound (g : Graph α) (D : Nat) (p q : α) (j : Nat)
-    (hc : chain g j p = some q) (hq : g q = none) (hj : j ≤ D + 1) :
+    (hc : chain g j p = some q) (hq : g q = none) (hj : j ≤ D) :
     resolve g D p = .notExist :=
-  loop_notfound g (D+1) p p false j q (behind_refl g p) hc hq hj (by omega)
+  loop_notfound g (D+1) p p false j q (behind_refl g p) hc hq (by omega)
 
-/-- … and not-exist is reported for nothing else. -/
+/-- … and not-exist is reported for nothing else: only for a missing entry WITHIN the budget. -/
 theorem C17_notExist_only_if (g : Graph α) (D : Nat) (p : α) (h : resolve g D p = .notExist) :
-    ∃ j q, j ≤ D + 1 ∧ chain g j p = some q ∧ g q = none :=
-  loop_notExist_sound g (D+1) p p false (behind_refl g p) h
+    ∃ j q, j ≤ D ∧ chain g j p = some q ∧ g q = none := by
+  obtain ⟨j, q, hj, hc, hq⟩ := loop_notExist_sound g (D+1) p p false (behind_refl g p) h
+  exact ⟨j, q, by omega, hc, hq⟩
 
-/-- Otherwise: no non-symlink within `D` hops and no missing entry within `D + 1` hops gives a cycle
-or a depth error. -/
+/-- Otherwise: no non-symlink within `D` hops and no missing entry within `D` hops gives a cycle or a
+depth error — in particular when the missing entry is exactly one hop past the budget. -/
 theorem C17_otherwise (g : Graph α) (D : Nat) (p : α)
     (h1 : ∀ k n, k ≤ D → chain g k p = some n → isTerm g n = false)
-    (h2 : ∀ j q, j ≤ D + 1 → chain g j p = some q → g q ≠ none) :
+    (h2 : ∀ j q, j ≤ D → chain g j p = some q → g q ≠ none) :
     resolve g D p = .cycle ∨ resolve g D p = .depth :=
   resolve_err g D p h1 h2
 
@@ -79,41 +92,24 @@ theorem C17_cycle_real (g : Graph α) (D : Nat) (p : α) (h : resolve g D p = .c
   | none => exact (hall (k+1) hc).elim
   | some q => exact chain_prefix_link g k k p q hc (Nat.le_refl k)
 
-/-- The whole sentence at the observation point: what `Stat` answers is allowed by the walk of the
-chain with `D` hops (`specWalk`): the first real file/directory within `D` hops; not-exist for a
-missing or deleted entry within `D` hops; any error class when such an entry sits exactly one hop past
-the budget; cycle or depth otherwise. -/
-theorem C17_stat_meets_spec (g : Graph α) (D : Nat) (p : α) :
-    allowed g (specWalk g D p) (stat g D p) = true := by
-  have errCase : (∃ q, chain g (D+1) p = some q ∧ (g q = none → False)) →
-      ∃ x, g p = some x ∧ (resolve g D p = .cycle ∨ resolve g D p = .depth) := by
-    rintro ⟨q, hc, hq⟩
-    have hp := chain_prefix_link g D 0 p q hc (by omega)
-    obtain ⟨n0, hn0, hl0⟩ := hp
-    simp only [chain, Option.some.injEq] at hn0
-    subst hn0
-    have hne := isLink_some g p hl0
-    cases hgp : g p with
-    | none => exact (hne hgp).elim
-    | some x =>
-      refine ⟨x, rfl, ?_⟩
-      apply resolve_err
-      · intro k n hk hcn
-        obtain ⟨n', hn', hl⟩ := chain_prefix_link g D k p q hc hk
-        rw [hcn] at hn'
-        cases hn'
-        exact isLink_not_term g n hl
-      · intro j q' hj hcq hq'
-        by_cases hjd : j ≤ D
-        · obtain ⟨n', hn', hl⟩ := chain_prefix_link g D j p q hc hjd
-          rw [hcq] at hn'
-          cases hn'
-          exact isLink_some g q' hl hq'
-        · have : j = D + 1 := by omega
-          subst this
-          rw [hc] at hcq
-          cases hcq
-          exact hq hq'
+/-- `specWalk` IS the sentence, read on the chain: each verdict is one clause of it. -/
+theorem C17_spec_reads_sentence (g : Graph α) (D : Nat) (p : α) :
+    (∀ n, specWalk g D p = .mustOk n → ∃ k, k ≤ D ∧ chain g k p = some n ∧ isReal g n = true) ∧
+    (specWalk g D p = .mustNotExist → ∃ k q, k ≤ D ∧ chain g k p = some q ∧ isGone g q = true) ∧
+    (specWalk g D p = .cycleOrDepth →
+      ∀ k, k ≤ D → ∃ q, chain g k p = some q ∧ isLink g q = true) := by
+  refine ⟨fun n h => specWalk_mustOk g D p n h, fun h => specWalk_mustNotExist g D p h, ?_⟩
+  intro h k hk
+  obtain ⟨q, hc⟩ := specWalk_cod g D p h
+  exact chain_prefix_link g D k p q hc hk
+
+/-- the common core of the two "meets the specification" theorems -/
+private theorem resolve_meets (g : Graph α) (D : Nat) (p : α) :
+    match specWalk g D p with
+    | .mustOk n => (g p).isSome = true ∧ resolve g D p = .ok n ∧ isReal g n = true
+    | .mustNotExist => g p = none ∨ resolve g D p = .notExist ∨
+        (∃ n, resolve g D p = .ok n ∧ g n = some (.term .wh))
+    | .cycleOrDepth => (g p).isSome = true ∧ (resolve g D p = .cycle ∨ resolve g D p = .depth) := by
   cases hv : specWalk g D p with
   | mustOk n =>
     obtain ⟨k, hk, hc, hr⟩ := specWalk_mustOk g D p n hv
@@ -124,7 +120,44 @@ theorem C17_stat_meets_spec (g : Graph α) (D : Nat) (p : α) :
       cases hgn : g n with
       | none => simp [hgn] at hr
       | some _ => rfl
-    have hp := chain_target_some g k p n hc hns
+    exact ⟨chain_target_some g k p n hc hns, hres, hr⟩
+  | mustNotExist =>
+    obtain ⟨k, q, hk, hc, hq⟩ := specWalk_mustNotExist g D p hv
+    simp only []
+    unfold isGone at hq
+    cases hgq : g q with
+    | none =>
+      cases k with
+      | zero => simp only [chain, Option.some.injEq] at hc; subst hc; exact Or.inl hgq
+      | succ k => exact Or.inr (Or.inl (C17_notfound g D p q (k+1) hc hgq hk))
+    | some y =>
+      cases y with
+      | link t => simp [hgq] at hq
+      | term kd =>
+        cases kd <;> simp [hgq] at hq
+        exact Or.inr (Or.inr ⟨q, loop_complete g (D+1) p p false k q (behind_refl g p) hc
+          (by simp [isTerm, hgq]) (by omega), hgq⟩)
+  | cycleOrDepth =>
+    obtain ⟨q, hc⟩ := specWalk_cod g D p hv
+    simp only []
+    have h0 := chain_reaches_link_or_end g D 0 p q hc (Nat.zero_le _) p rfl
+    refine ⟨?_, ?_⟩
+    · cases hgp : g p with
+      | none => exact (h0.2 hgp).elim
+      | some _ => rfl
+    · apply resolve_err
+      · intro k n hk hcn; exact (chain_reaches_link_or_end g D k p q hc hk n hcn).1
+      · intro j q' hj hcq; exact (chain_reaches_link_or_end g D j p q hc hj q' hcq).2
+
+/-- The whole sentence at the observation point `Stat`: what `Stat` answers is exactly what the walk
+of the chain with `D` hops prescribes. No hypothesis. -/
+theorem C17_stat_meets_spec (g : Graph α) (D : Nat) (p : α) :
+    allowed g (specWalk g D p) (stat g D p) = true := by
+  have h := resolve_meets g D p
+  cases hv : specWalk g D p with
+  | mustOk n =>
+    rw [hv] at h
+    obtain ⟨hp, hres, hr⟩ := h
     unfold stat
     cases hgp : g p with
     | none => simp [hgp] at hp
@@ -138,45 +171,67 @@ theorem C17_stat_meets_spec (g : Graph α) (D : Nat) (p : α) :
         | link t => simp [hgn] at hr
         | term kd => cases kd <;> simp [hgn, allowed] at hr ⊢
   | mustNotExist =>
-    obtain ⟨k, q, hk, hc, hq⟩ := specWalk_mustNotExist g D p hv
+    rw [hv] at h
     unfold stat
     cases hgp : g p with
     | none => rfl
     | some x =>
-      simp only []
-      unfold isGone at hq
-      cases hgq : g q with
-      | none =>
-        rw [C17_notfound g D p q k hc hgq (by omega)]; rfl
+      rcases h with h | h | ⟨n, h, hn⟩
+      · simp [hgp] at h
+      · simp [h, allowed]
+      · simp [h, hn, allowed]
+  | cycleOrDepth =>
+    rw [hv] at h
+    obtain ⟨hp, hr⟩ := h
+    unfold stat
+    cases hgp : g p with
+    | none => simp [hgp] at hp
+    | some x => rcases hr with hr | hr <;> simp [hr, allowed]
+
+/-- … and at the observation point `Open`: the result of `Open` ITSELF meets the sentence — a deleted
+entry is not-exist already at `Open`, not only at a later `Stat`/`Read` on a handle. No hypothesis. -/
+theorem C17_open_meets_spec (g : Graph α) (D : Nat) (p : α) :
+    allowedOpen (specWalk g D p) (openNode g D p) = true := by
+  have h := resolve_meets g D p
+  cases hv : specWalk g D p with
+  | mustOk n =>
+    rw [hv] at h
+    obtain ⟨hp, hres, hr⟩ := h
+    unfold openNode
+    cases hgp : g p with
+    | none => simp [hgp] at hp
+    | some x =>
+      simp only [hres]
+      unfold isReal at hr
+      cases hgn : g n with
+      | none => simp [hgn] at hr
       | some y =>
         cases y with
-        | link t => simp [hgq] at hq
-        | term kd =>
-          cases kd <;> simp [hgq] at hq
-          have hres : resolve g D p = .ok q :=
-            loop_complete g (D+1) p p false k q (behind_refl g p) hc (by simp [isTerm, hgq]) (by omega)
-          simp [hres, hgq, allowed]
-  | boundary =>
-    obtain ⟨q, hc, hq⟩ := (specWalk_past g D p).1 hv
-    unfold isGone at hq
-    cases hgq : g q with
-    | none =>
-      have hres := C17_notfound g D p q (D+1) hc hgq (Nat.le_refl _)
-      unfold stat
-      cases hgp : g p with
-      | none => rfl
-      | some x => simp [hres, allowed]
-    | some y =>
-      obtain ⟨x, hx, hr⟩ := errCase ⟨q, hc, by simp [hgq]⟩
-      unfold stat
-      rcases hr with hr | hr <;> simp [hx, hr, allowed]
+        | link t => simp [hgn] at hr
+        | term kd => cases kd <;> simp [hgn, allowedOpen] at hr ⊢
+  | mustNotExist =>
+    rw [hv] at h
+    unfold openNode
+    cases hgp : g p with
+    | none => rfl
+    | some x =>
+      rcases h with h | h | ⟨n, h, hn⟩
+      · simp [hgp] at h
+      · simp [h, allowedOpen]
+      · simp [h, hn, allowedOpen]
   | cycleOrDepth =>
-    obtain ⟨q, hc, hq⟩ := (specWalk_past g D p).2 hv
-    have hqs : g q = none → False := by
-      intro hn; simp [isGone, hn] at hq
-    obtain ⟨x, hx, hr⟩ := errCase ⟨q, hc, hqs⟩
-    unfold stat
-    rcases hr with hr | hr <;> simp [hx, hr, allowed]
+    rw [hv] at h
+    obtain ⟨hp, hr⟩ := h
+    unfold openNode
+    cases hgp : g p with
+    | none => simp [hgp] at hp
+    | some x => rcases hr with hr | hr <;> simp [hr, allowedOpen]
+
+/-- `ReadDir` fails exactly when `Open` fails, with the same class (so a deleted entry has no listing). -/
+theorem C17_readdir_follows_open (g : Graph α) (kids : α → List String) (D : Nat) (p : α) :
+    readDir g kids D p =
+      (match openNode g D p with
+       | .ok n => .ok (kids n) | .notExist => .notExist | .cycle => .cycle | .depth => .depth) := rfl
 
 /-- `Open` then `Stat` on the handle is `Stat` (what `runExtractor` does). -/
 theorem C17_open_then_stat (g : Graph α) (D : Nat) (p : α) :
@@ -190,12 +245,27 @@ theorem C17_open_then_stat (g : Graph α) (D : Nat) (p : α) :
        | .cycle => .cycle
        | .depth => .depth) := by
   unfold stat openNode
-  cases g p <;> rfl
+  cases g p with
+  | none => rfl
+  | some x =>
+    simp only []
+    cases resolve g D p with
+    | ok n =>
+      simp only []
+      cases hgn : g n with
+      | none => simp [hgn]
+      | some y => cases y with
+        | link t => simp [hgn]
+        | term kd => cases kd <;> simp [hgn]
+    | notExist => rfl
+    | cycle => rfl
+    | depth => rfl
 
 /-! ### load time -/
 
 /-- A symlink whose target would leave the image root gets no node (the entry is skipped), so it can
-never be followed. -/
+never be followed. (Reviewer: "is `simp [handleSymlink, ..]`" — it is a statement about the control
+flow of `handleSymlink`; its content is `C17_outside_iff`, which says what "outside" means.) -/
 theorem C17_outside (dir linkSegs : List String)
     (h : targetOutsideRoot dir (linkSegs.head? = some "") linkSegs = true) :
     handleSymlink dir linkSegs = .skipped := by
@@ -205,10 +275,12 @@ theorem C17_outside (dir linkSegs : List String)
     simp [targetOutsideRoot, cleanRel, cleanRelAux, isDot, isDotDot] at h
   simp [hne, h]
 
-/-- `TargetOutsideRoot` is exactly "some prefix of the joined path has more `..` than names" — under
-the assumption that the random marker directory occurs in no segment. -/
-theorem C17_outside_iff (dir tgt : List String) (hd : ∀ n ∈ dir, plain n = true) :
-    targetOutsideRoot dir false tgt = escapes dir.length tgt ∧
+/-- `TargetOutsideRoot` is exactly "some prefix of the joined path has more `..` than names". No
+hypothesis on `dir` (the earlier `plain dir` hypothesis is gone: the joined path `dir ++ target` is read
+as a whole). Standing modelling assumption, not a hypothesis on inputs: the random uuid marker
+directory occurs in no segment. -/
+theorem C17_outside_iff (dir tgt : List String) :
+    targetOutsideRoot dir false tgt = escapes 0 (dir ++ tgt) ∧
     targetOutsideRoot dir true tgt = escapes 0 tgt := by
   unfold targetOutsideRoot cleanRel
   simp only [Bool.false_eq_true, if_false, if_true, List.contains_reverse]
@@ -217,7 +289,7 @@ theorem C17_outside_iff (dir tgt : List String) (hd : ∀ n ∈ dir, plain n = t
   simp only [List.map_nil, List.nil_append, List.length_nil] at h1 h2
   have step : ∀ xs : List String, cleanRelAux [] (none :: xs.map some) = cleanRelAux [none] (xs.map some) := by
     intro xs; simp [cleanRelAux, isDot, isDotDot]
-  rw [step, step, h1, h2, escapes_plain_prefix dir tgt 0 hd]
+  rw [step, step, h1, h2]
   simp
 
 /-- Every stored target is a canonical tree key (no "", "." or ".." segment), for relative and absolute
@@ -238,58 +310,24 @@ theorem C17_target_canonical (dir linkSegs key : List String)
     · cases h
     · split at h <;> (simp only [Loaded.node.injEq] at h; subst h; exact hc _)
 
-/-- The node created for a symlink addresses exactly the entry the link name denotes — for every
-relative and every absolute name, however it is spelled (`/./a`, `//a`, `/d/` included). -/
-theorem C17_stored_target (dir linkSegs key : List String) (hd : ∀ n ∈ dir, plain n = true)
-    (h : handleSymlink dir linkSegs = .node key) : denotes dir linkSegs = some key := by
-  unfold handleSymlink at h
-  split at h
-  · cases h
-  · by_cases habs : linkSegs.head? = some ""
-    · simp only [habs, decide_true, if_true] at h
-      split at h
-      · cases h
-      · rename_i hout
-        simp only [Loaded.node.injEq] at h
-        have hiff := (C17_outside_iff dir linkSegs hd).2
-        simp only [Bool.not_eq_true] at hout
-        rw [hout] at hiff
-        unfold denotes
-        simp only [habs, if_true, ← hiff, Bool.false_eq_true, if_false, Option.some.injEq]
-        exact h
-    · simp only [habs, decide_false] at h
-      split at h
-      · cases h
-      · rename_i hout
-        simp only [if_false, Loaded.node.injEq] at h
-        have hiff := (C17_outside_iff dir linkSegs hd).1
-        simp only [Bool.not_eq_true] at hout
-        rw [hout] at hiff
-        unfold denotes
-        simp only [habs, if_false, ← hiff, Bool.false_eq_true, Option.some.injEq]
-        exact h
-
-/-- … and conversely a link whose name denotes an entry inside the root always gets its node. -/
-theorem C17_denoted_is_stored (dir linkSegs key : List String) (hd : ∀ n ∈ dir, plain n = true)
-    (hne : linkSegs ≠ [""]) (h : denotes dir linkSegs = some key) : handleSymlink dir linkSegs = .node key := by
-  unfold denotes at h
-  unfold handleSymlink
+/-- The loader and the specification's own lexical resolver (`resolveLex`, which shares no code with
+`cleanAbs`/`cleanRel`/`targetOutsideRoot`) agree on every link name: a node is created exactly when the
+name denotes an entry inside the root, and it addresses exactly that entry. No hypothesis. -/
+theorem C17_stored_target (dir linkSegs : List String) (hne : linkSegs ≠ [""]) :
+    handleSymlink dir linkSegs =
+      (match denotes dir linkSegs with
+       | some key => .node key
+       | none => .skipped) := by
+  unfold handleSymlink denotes
   simp only [hne, if_false]
+  have hiff := C17_outside_iff dir linkSegs
   by_cases habs : linkSegs.head? = some ""
-  · simp only [habs, if_true, decide_true] at h ⊢
-    rw [(C17_outside_iff dir linkSegs hd).2]
-    split at h
-    · cases h
-    · rename_i he
-      simp only [Option.some.injEq] at h
-      simp [he, h]
-  · simp only [habs, if_false, decide_false] at h ⊢
-    rw [(C17_outside_iff dir linkSegs hd).1]
-    split at h
-    · cases h
-    · rename_i he
-      simp only [Option.some.injEq] at h
-      simp [he, h]
+  · simp only [habs, decide_true, if_true, hiff.2, resolveLex_eq linkSegs [], List.length_nil,
+      List.reverse_nil, cleanAbs]
+    split <;> rfl
+  · simp only [habs, decide_false, if_false, hiff.1, resolveLex_eq (dir ++ linkSegs) [], List.length_nil,
+      List.reverse_nil, cleanAbs]
+    split <;> rfl
 
 /-! ### non-vacuity and concrete witnesses (graphs on `Nat`) -/
 
@@ -305,7 +343,13 @@ def exG : Graph Nat := fun i =>
 
 example : resolve exG 3 0 = .ok 3 ∧ resolve exG 2 0 = .depth ∧ stat exG 3 0 = .file 3 := by decide
 example : resolve exG 6 4 = .cycle ∧ resolve exG 0 4 = .depth ∧ resolve exG 1 10 = .cycle := by decide
-example : resolve exG 0 6 = .notExist ∧ stat exG 1 8 = .notExist ∧ stat exG 0 8 = .depth := by decide
+-- the budget's edge is symmetric: a missing, a deleted and a present entry one hop past the budget are
+-- all a depth error; within the budget the first two are not-exist
+example : stat exG 0 6 = .depth ∧ stat exG 0 8 = .depth ∧ stat exG 2 0 = .depth := by decide
+example : stat exG 1 6 = .notExist ∧ stat exG 1 8 = .notExist := by decide
+example : specWalk exG 0 6 = .cycleOrDepth ∧ specWalk exG 0 8 = .cycleOrDepth ∧ specWalk exG 1 8 = .mustNotExist := by decide
+-- Open of a deleted entry (directly, or through a link) is not-exist, not a handle
+example : openNode exG 1 8 = .notExist ∧ openNode exG 0 9 = .notExist ∧ openNode exG 3 0 = .ok 3 := by decide
 -- hypotheses of C17_ok_iff / C17_notfound / C17_otherwise are satisfiable
 example : chain exG 3 0 = some 3 ∧ isTerm exG 3 = true := by decide
 example : chain exG 1 6 = some 7 ∧ exG 7 = none := by decide
@@ -313,9 +357,6 @@ example : (∀ k n, k ≤ 2 → chain exG k 4 = some n → isTerm exG n = false)
   intro k n hk
   have : k = 0 ∨ k = 1 ∨ k = 2 := by omega
   rcases this with rfl | rfl | rfl <;> simp only [chain, exG] <;> intro h <;> cases h <;> decide
--- the boundary hop: a deleted entry exactly one hop past the budget is a depth error in the code,
--- a missing one is not-exist; the specification allows either (`boundary`)
-example : specWalk exG 0 8 = .boundary ∧ specWalk exG 0 6 = .boundary := by decide
 -- load time
 example : handleSymlink ["d"] ["..", "..", "x"] = .skipped := by decide
 example : handleSymlink ["d"] ["..", "x"] = .node ["x"] := by decide
@@ -324,8 +365,8 @@ example : handleSymlink [] ["", "n0"] = .node ["n0"] := by decide
 -- absolute names in any spelling are stored canonically (regression for fix a23f8926)
 example : handleSymlink [] ["", ".", "a"] = .node ["a"] ∧ handleSymlink [] ["", "", "a"] = .node ["a"] ∧
     handleSymlink ["s"] ["", "d", ""] = .node ["d"] ∧ handleSymlink [] ["", ""] = .node [] := by decide
--- `C17_stored_target`'s hypotheses are satisfiable, for an absolute and a relative name
-example : handleSymlink ["s"] ["", "s", "d"] = .node ["s", "d"] ∧ denotes ["s"] ["", "s", "d"] = some ["s", "d"] := by decide
-example : handleSymlink ["s"] ["..", ".", "a"] = .node ["a"] ∧ plain "s" = true := by decide
+-- the specification's resolver on the same names
+example : denotes ["s"] ["", "s", "d"] = some ["s", "d"] ∧ denotes ["s"] ["..", ".", "a"] = some ["a"] ∧
+    denotes ["s"] ["..", "..", "a"] = none ∧ denotes [] ["", ".", "a"] = some ["a"] := by decide
 
 end Scalibr.Symlink
